@@ -301,7 +301,7 @@ def make_inputs(ctx):
             add("err:%d:E" % k, s.encode("latin-1"), "x86_64-sysv", "E")
     texts = [(n, t.decode("latin-1"), a, m) for n, t, a, m in cor]
     pool = sorted({tok for _, t, _, _ in texts for tok in TOKRE.findall(t) if not tok.isspace() and len(tok) < 40}) + EXTRA_TOKS
-    ntrunc, nmut = (60, 260) if ctx.quick else (400, 3000)
+    ntrunc, nmut = (60, 260) if ctx.quick else (200, 1200)
     for k in range(ntrunc):
         n, t, a, m = rng.choice(texts)
         cut = rng.randrange(0, max(1, len(t)))
@@ -334,7 +334,10 @@ def env_id(row, which="main"):
 
 
 def tlc_envs(ctx, cfg, rot=0, stage2=False):
-    r = ctx.tlc_must_pass("PureEnv", cfg, workers=2, env={"C20_ROT": rot, "C20_STAGE2": "1" if stage2 else "0"}, timeout=600)
+    cov = cfg == "MC_Pure_pairwise.cfg" and rot < 7
+    r = ctx.tlc_must_pass("PureEnv", cfg, workers=2, env={"C20_ROT": rot, "C20_STAGE2": "1" if stage2 else "0"}, timeout=600, coverage=cov)
+    if cov:
+        ctx.check_coverage(r)
     rows = []
     for v in r.vcases:
         j = json.loads(v)
@@ -350,19 +353,22 @@ def tlc_envs(ctx, cfg, rot=0, stage2=False):
 
 # ---- log validation ---------------------------------------------------------------------------------
 def validate_log(ctx, events, tag):
-    """Hand the log to TLC (Trace_Pure).  Returns None if accepted, else the REJECT record."""
+    """Hand the log to TLC (Trace_Pure).  Returns [] if accepted, else the REJECT witnesses (one per event TLC could not
+    consume with Pure!Run)."""
     path = ctx.path("log_%s.ndjson" % tag)
     with open(path, "w") as f:
         for ev in events:
             f.write(json.dumps(ev) + "\n")
     r = ctx.tlc("Trace_Pure", "Trace_Pure.cfg", workers=1, env={"TRACE": path}, collect="REJECT ", timeout=1800, heap="4g")
+    if r.distinct != len(events) + 1:
+        raise vlib.MachineryError("Trace_Pure consumed %d of %d events (rc=%s)\n%s" % (r.distinct - 1, len(events), r.rc, r.out[-2000:]))
     if r.rc == 0:
-        if r.distinct != len(events) + 1:
-            raise vlib.MachineryError("Trace_Pure accepted but consumed %d of %d events" % (r.distinct - 1, len(events)))
-        return None
+        if r.vcases:
+            raise vlib.MachineryError("Trace_Pure accepted a log with REJECT witnesses")
+        return []
     if r.rc != 10 or not r.vcases:
         raise vlib.MachineryError("Trace_Pure: unexpected rc=%s\n%s" % (r.rc, r.out[-3000:]))
-    return json.loads(r.vcases[0])
+    return [json.loads(v) for v in r.vcases]
 
 
 def rerun(job_proto, eid, env, times):
@@ -374,7 +380,7 @@ def rerun(job_proto, eid, env, times):
     return res
 
 
-def attribute(ctx, rej, jobs_by_key, envs):
+def attribute(ctx, rej, jobs_by_key, envs, flips=True):
     """A rejected pair of runs: confirm by re-running, then find the dimensions whose flip changes the result."""
     a, b = rej["first"], rej["event"]
     proto = jobs_by_key[(b["i"], b["o"])]
@@ -385,6 +391,8 @@ def attribute(ctx, rej, jobs_by_key, envs):
         return None, {"rerun_a": ra, "rerun_b": rb}
     if len(set(ra)) > 1 or len(set(rb)) > 1:
         dims = ["same-env"]
+    elif not flips:
+        dims = ["not-attributed"]
     else:
         dims = []
         for d in sorted(ea):
@@ -402,9 +410,13 @@ def attribute(ctx, rej, jobs_by_key, envs):
             {"rerun_a": ra, "rerun_b": rb, "env_a": ea, "env_b": eb, "memcheck_first_invalid_access": mem})
 
 
+MAX_ATTRIBUTIONS = 40
+
+
 def judge(ctx, events, jobs_by_key, envs, tag):
-    """Validate the log with TLC; report every rejection (bounded).  The log is grouped by (input, opts); keys are independent in
-    Pure.tla, so after a rejection inside one group validation resumes with the groups that follow it."""
+    """Validate the log with TLC and report what it rejected: one finding per (input, opts) with two results, one per
+    top frame of uninitialised-value reports."""
+    # keys are independent in Pure.tla: the log is validated in shards of whole (input, opts) groups
     order, groups = [], {}
     for ev in events:
         k = (ev["i"], ev["o"])
@@ -412,28 +424,38 @@ def judge(ctx, events, jobs_by_key, envs, tag):
             groups[k] = []
             order.append(k)
         groups[k].append(ev)
-    start, accepted = 0, 0
-    for _round in range(25):
-        todo = [ev for k in order[start:] for ev in groups[k]]
-        if not todo:
-            break
-        rej = validate_log(ctx, todo, "%s_%d" % (tag, _round))
-        if rej is None:
-            accepted += len(todo)
-            break
+    shards, cur = [], []
+    for k in order:
+        if cur and len(cur) + len(groups[k]) > 20000:
+            shards.append(cur)
+            cur = []
+        cur += groups[k]
+    if cur:
+        shards.append(cur)
+    res = vlib.pmap(lambda a: validate_log(ctx, a[1], "%s_%d" % (tag, a[0])), list(enumerate(shards)), workers=3)
+    rejects = [r for rs in res for r in rs]
+    bad_keys, uninit_frames, attributed = set(), set(), 0
+    for rej in rejects:
         ev = rej["event"]
         k = (ev["i"], ev["o"])
-        gi = order.index(k)
-        accepted += sum(len(groups[x]) for x in order[start:gi])
         proto = jobs_by_key[k]
         case = {"input": proto["name"], "opts": ev["o"], "text": G["text"][ev["i"]].decode("latin-1")[:4000], "reject": rej}
         if ev.get("u", 0) > 0:
-            ctx.violation("uninit:" + ev["uf"], "valgrind memcheck: %d uninitialised-value report(s), top in-repo frame %s, input %s (%s)"
-                          % (ev["u"], ev["uf"], proto["name"], ev["o"]), case)
-            groups[k] = [x for x in groups[k] if not x["u"] > 0]
-            start = gi          # re-validate this group without its forbidden events
+            if ev["uf"] not in uninit_frames:
+                uninit_frames.add(ev["uf"])
+                ctx.violation("uninit:" + ev["uf"], "valgrind memcheck: %d uninitialised-value report(s), top in-repo frame %s, input %s (%s)"
+                              % (ev["u"], ev["uf"], proto["name"], ev["o"]), case)
+            bad_keys.add(k)
             continue
-        key, info = attribute(ctx, rej, jobs_by_key, envs)
+        if k in bad_keys:
+            continue
+        bad_keys.add(k)
+        if attributed >= MAX_ATTRIBUTIONS:
+            ctx.violation("pure:unattributed", "more than %d (input, opts) with two results; this one was not re-run: %s (%s)"
+                          % (MAX_ATTRIBUTIONS, proto["name"], ev["o"]), case)
+            continue
+        attributed += 1
+        key, info = attribute(ctx, rej, jobs_by_key, envs, flips=attributed <= 10)
         case.update(info)
         if key is None:
             ctx.cov.setdefault("unconfirmed_rejections", []).append({"input": proto["name"], "opts": ev["o"], "envs": [rej["first"]["env"], ev["env"]]})
@@ -442,10 +464,9 @@ def judge(ctx, events, jobs_by_key, envs, tag):
             ctx.violation(key, "two runs of the same input/options differ: %s (%s): env %s -> rc=%s out=%s err=%s ; env %s -> rc=%s out=%s err=%s"
                           % (proto["name"], ev["o"], rej["first"]["env"], rej["first"]["rc"], rej["first"]["so"], rej["first"]["se"],
                              ev["env"], ev["rc"], ev["so"], ev["se"]), case)
-        start = gi + 1
-    else:
-        raise vlib.MachineryError("Trace_Pure still rejects after 25 reported findings")
+    accepted = len([ev for ev in events if (ev["i"], ev["o"]) not in bad_keys])
     ctx.validated(accepted)
+    ctx.cov["rejected_keys"] = ctx.cov.get("rejected_keys", 0) + len(bad_keys)
     return accepted
 
 
@@ -607,6 +628,7 @@ def my_build(ctx, flavour):
         raise vlib.MachineryError("build cache keeps vanishing (%s)" % flavour)
     cc, cflags, ldflags = vlib.BUILD_FLAVOURS[flavour]
     obj = ctx.path("obj-" + flavour)
+    os.makedirs(obj, exist_ok=True)
     p = subprocess.run(["make", "-s", "-j16", "-C", vlib.REPO, "objdir=" + obj, "CC=" + cc, "CFLAGS=" + cflags, "LDFLAGS=" + ldflags],
                        stdout=subprocess.PIPE, stderr=subprocess.STDOUT, text=True)
     if p.returncode != 0 or not os.path.exists(os.path.join(obj, "cproc-qbe")):
@@ -663,6 +685,41 @@ def exec_pre(job):
         RUN_TIMEOUT = old
 
 
+def replay(ctx, path):
+    """Re-run a stored violation: the input under the two environments TLC found in conflict (5 runs each)."""
+    rec = json.load(open(path))
+    case = rec["case"]
+    print("key:", rec["key"])
+    print("what:", rec["what"])
+    if "env_a" not in case:
+        print("(structural finding: nothing to re-run)\n" + json.dumps(case, indent=1)[:3000])
+        return 1
+    plain = my_build(ctx, "plain")
+    G["bins"] = {"ref": os.path.join(plain, "cproc-qbe")}
+    s2, _ = stage2_binary(ctx)
+    if s2:
+        G["bins"]["stage2"] = s2
+    G["launch"] = vlib.cc_link([os.path.join(vlib.VERIF, "harness/c20_launch.c")], ctx.path("c20_launch"))
+    G["outdir"] = ctx.path("out")
+    os.makedirs(G["outdir"], exist_ok=True)
+    text = case["text"].encode("latin-1")
+    iid = hashlib.sha1(text).hexdigest()[:12]
+    G["text"], G["src"] = {iid: text}, {iid: ctx.path("in_%s.c" % iid)}
+    open(G["src"][iid], "wb").write(text)
+    t, _, e = case["opts"].partition(" ")
+    proto = {"name": case["input"], "i": iid, "t": t, "m": "E" if e == "-E" else "c"}
+    differ = set()
+    for label in ("env_a", "env_b"):
+        if case[label].get("bin") not in G["bins"]:
+            print("%s needs binary %s which is not available" % (label, case[label].get("bin")))
+            continue
+        res = rerun(proto, label, case[label], 5)
+        differ |= set(res)
+        print("%s %s\n   -> (rc, sha256(out), sha256(stderr normalised)) x5: %s" % (label, json.dumps(case[label], sort_keys=True), sorted(set(res))))
+    print("spec (Pure.tla): all runs of one (input, opts) have ONE result; observed %d distinct" % len(differ))
+    return 1 if len(differ) > 1 else 0
+
+
 def run(ctx):
     ctx.level = "exploration"
     ph = ctx.cov.setdefault("phase_s", {})
@@ -690,6 +747,7 @@ def run(ctx):
     if not ctx.quick:
         for rot in range(1, 4):
             extra_arrays += tlc_envs(ctx, "MC_Pure_pairwise.cfg", rot=(ctx.seed + rot) % 7 + 7 * rot, stage2=stage2)
+    extra_arrays = [(i, e) for i, e in dict(extra_arrays).items() if i not in dict(envs_pair)]
     envs = dict(envs_pair)
     envs.update(dict(envs_vg))
     envs.update(dict(extra_arrays))
@@ -745,9 +803,9 @@ def run(ctx):
             if extra_arrays:
                 rows += extra_arrays
             if not ctx.quick:
-                rows = rows + vgrows
-            elif it["name"].startswith("err:") or (not it["name"].startswith("own:")
-                                                   and (k % 2 == 0 if it["name"].startswith("corpus:") else k % 4 == 0)):
+                rows = rows + (vgrows if it["name"].startswith(("corpus:", "err:")) else [vgrows[k % len(vgrows)]])
+            elif not it["name"].startswith("own:") and (it["text"].startswith(b"#define f(a) a\n#define t(a) a")
+                                                        or k % (3 if it["name"].startswith(("corpus:", "err:")) else 6) == 0):
                 rows = rows + [vgrows[(k // 2) % len(vgrows)]]
             for eid, env in rows:
                 jobs.append(dict(name=it["name"], i=it["i"], t=it["t"], m=it["m"], env=env, eid=eid, n=n))
@@ -788,7 +846,7 @@ def run(ctx):
             full = tlc_envs(ctx, "MC_Pure_full.cfg", stage2=stage2)
             envs.update(dict(full))
             pick = []
-            for cls, cnt in (("corpus", 6), ("own", 2), ("err", 4), ("trunc", 2), ("mut", 4)):
+            for cls, cnt in (("corpus", 2), ("err", 1), ("mut", 1)):
                 cand = [it for it in inputs if it["name"].startswith(cls + ":")]
                 ctx.rng.shuffle(cand)
                 pick += cand[:cnt]
